@@ -34,6 +34,12 @@ pub fn label_pool(n: usize) -> Vec<String> {
     all.iter().take((n + 2).min(all.len())).map(|s| s.to_string()).collect()
 }
 
+/// label VALUES that no text denotes, or that sit at the edge of the text form: a blank inside, a Str of one
+/// character, Greek('α'), an index of eight digits (save/load and clone must keep them apart all the same)
+pub fn odd_labels() -> Vec<String> {
+    ["~s:a b", "~s:z", "~g:α", "α12345678", "ab", "~s:αb"].iter().map(|s| s.to_string()).collect()
+}
+
 /// data values on both sides of the 8-byte inline boundary
 pub fn data_pool() -> Vec<String> {
     let lens = [0usize, 1, 3, 7, 8, 9, 12, 20];
@@ -130,7 +136,14 @@ impl<'a> Recorder<'a> {
 pub fn run(o: &DriveOpts, out: &mut dyn Write, tid: usize) -> Value {
     let mut rng = StdRng::seed_from_u64(o.seed);
     let mut w = World::new(o.n, o.cap, o.scratch.clone());
-    let labels = label_pool(o.n);
+    let mut labels = label_pool(o.n);
+    if matches!(o.profile.as_str(), "twin" | "world") {
+        let odd = odd_labels();
+        let k = (o.seed as usize) % odd.len();
+        labels.insert(1, odd[k].clone());
+        labels.insert(2, odd[(k + 1) % odd.len()].clone());
+        labels.insert(0, odd[(k + 4) % odd.len()].clone());
+    }
     w.labels = labels.clone();
     let datas = data_pool();
     let mut rec = Recorder { out, tid, events: 0, mirror_next: false };
